@@ -6,7 +6,7 @@
 (*   {"ev":"reset","scn":id,"n":remotes,"mode":"pdh"|"uuid"}               *)
 (*   {"ev":"ask","b":backend}                                              *)
 (*   {"ev":"answer","b":backend,"k":kind}                                  *)
-(*   {"ev":"cancel"}                 the client cancelled (no obligation)  *)
+(*   {"ev":"cancel"}                 the client cancelled: clause (b) void  *)
 (*   {"ev":"done","ok":b,"pdhOK":b,"rel":[b,b,b,b,b]}                      *)
 (***************************************************************************)
 EXTENDS FedFetchContract, TraceIO
@@ -16,11 +16,12 @@ TraceInit == l = 1 /\ CInit([n |-> 0, mode |-> "pdh"])
 TraceReset == /\ IsEvent("reset")
               /\ cfg' = [n |-> Ev.n, mode |-> Ev.mode]
               /\ ans' = [b \in Backends |-> "none"]
+              /\ gaveup' = FALSE
               /\ done' = "no"
 
 TraceAsk    == IsEvent("ask")    /\ Ask(Ev.b)
 TraceAnswer == IsEvent("answer") /\ Answer(Ev.b, Ev.k)
-TraceCancel == IsEvent("cancel") /\ UNCHANGED cvars
+TraceCancel == IsEvent("cancel") /\ ClientCancel
 TraceDone   == IsEvent("done")   /\ GetDone(Ev.ok, Ev.pdhOK, Ev.rel)
 
 TraceNext == TraceReset \/ TraceAsk \/ TraceAnswer \/ TraceCancel \/ TraceDone
